@@ -355,7 +355,7 @@ class Build:
 
         if full_name.startswith(".google.protobuf."):
             g = self._wkt_lib()
-            c = getattr(g, full_name.split(".")[-1])
+            c = getattr(g, "".join(full_name[len(".google.protobuf."):].split(".")))
             self._bp_cls[full_name] = c
             return c
         mi = self.msgs[full_name]
@@ -391,7 +391,7 @@ class Build:
             return ov[full_name]
 
         if full_name.startswith(".google.protobuf."):
-            return getattr(self._wkt_lib(), full_name.split(".")[-1])
+            return getattr(self._wkt_lib(), "".join(full_name[len(".google.protobuf."):].split(".")))
         pkg, path = self._split_enum(full_name)
         mod = self.module(pkg)
         want = "".join(path).replace("_", "").lower()
